@@ -43,8 +43,9 @@ def peg_cfg(c):
 
 def atom_cfg(inv, c):
     return "\n".join(["SPECIFICATION Spec", "CONSTANTS",
-                      "  AtomIds = {%s}" % ", ".join(str(x) for x in c["atoms"]), "  Depth = %d" % c["depth"],
-                      "INVARIANT %s" % inv, "CONSTRAINT Emit", "CHECK_DEADLOCK FALSE", ""])
+                      "  AtomIds = {%s}" % ", ".join(str(x) for x in c["atoms"]), "  Depth = %d" % c["depth"]]
+                     + (["  MutLen = %d" % c.get("mutlen", 5)] if c["mod"] == "TagLangMC" else [])
+                     + ["INVARIANT %s" % inv, "CONSTRAINT Emit", "CHECK_DEADLOCK FALSE", ""])
 
 
 def plan(tier):
@@ -57,7 +58,9 @@ def plan(tier):
                  alpha=["a", "b", "\\"], maxlen=3),
             dict(name="leafy1c", mod="PegMC", leaves=list(range(1, 19)), un=list(range(1, 9)), bin=ALL_BIN, depth=1,
                  alpha=["a", "b", "A"], maxlen=2),
-            dict(name="tag2", mod="TagLangMC", atoms=[1, 2, 3, 4, 5], depth=2),
+            dict(name="tag2", mod="TagLangMC", atoms=[1, 2, 3, 4, 5], depth=2, mutlen=4),
+            # bare regexes whose body holds operator characters (they run to the next blank)
+            dict(name="tag2r", mod="TagLangMC", atoms=[1, 2, 11, 12], depth=2, mutlen=5),
             dict(name="json2", mod="JsonDocMC", atoms=[1, 2, 3, 4, 6, 8], depth=2),
             dict(name="json1", mod="JsonDocMC", atoms=list(range(1, 21)), depth=1),
         ]
@@ -69,8 +72,10 @@ def plan(tier):
              alpha=["a", "b"], maxlen=4, sample=30000, hows=1),
         dict(name="leafy1", mod="PegMC", leaves=list(range(1, 19)), un=list(range(1, 9)), bin=ALL_BIN, depth=1,
              alpha=["a", "b", "A", "\\"], maxlen=3, hows=3),
-        dict(name="tag2", mod="TagLangMC", atoms=[1, 2, 3, 4, 5], depth=2),
-        dict(name="tag2b", mod="TagLangMC", atoms=[6, 7, 8, 9, 10], depth=2),
+        dict(name="tag2", mod="TagLangMC", atoms=[1, 2, 3, 4, 5], depth=2, mutlen=7),
+        dict(name="tag2b", mod="TagLangMC", atoms=[6, 7, 8, 9, 10], depth=2, mutlen=5),
+        dict(name="tag2r", mod="TagLangMC", atoms=[1, 2, 11, 12], depth=2, mutlen=7),
+        dict(name="tag2s", mod="TagLangMC", atoms=[3, 13, 14, 15], depth=2, mutlen=5),
         dict(name="json2", mod="JsonDocMC", atoms=list(range(1, 9)), depth=2),
         dict(name="json1", mod="JsonDocMC", atoms=list(range(1, 21)), depth=1),
     ]
@@ -160,7 +165,7 @@ def rand_inputs(rng, n, maxlen):
 
 
 UNIVERSE = ["a", "b", "ab"]
-BODIES = ["a", "b", "^a", "b$"]
+BODIES = ["a", "b", "^a", "b$", "b|a$", "a,b", "a&b", "^(a|b)$"]
 
 
 def rand_ast(rng, depth):
@@ -198,6 +203,37 @@ def render(x):
         return wrap(x["ts"][0], p(x["ts"][0]) < 2) + [tok("&")] + wrap(x["ts"][1], p(x["ts"][1]) < 2)
     assert prec == 1
     return render(x["ts"][0]) + [tok(x["a"])] + render(x["ts"][1])
+
+
+def mutate_toks(rng, tk):
+    """A neighbour of a rendered expression, most often ill-formed (the reference reader of the text decides)."""
+    tk = list(tk)
+    k = rng.randint(0, 6)
+    i = rng.randrange(len(tk))
+    if k == 0:
+        del tk[i]
+    elif k == 1:
+        tk.insert(i, tk[i])
+    elif k == 2:
+        tk.insert(i, tok(rng.choice(["&", "|", ",", "(", ")", "!"])))
+    elif k == 3:
+        tk.append(tok(rng.choice(["&", "|", ",", ")", "(", "!"])))
+    elif k == 4:
+        sps = [n for n, t in enumerate(tk) if t["t"] == "sp"]
+        if sps:
+            del tk[rng.choice(sps)]                 # the bare regex now swallows what follows
+        else:
+            tk.insert(0, tok(rng.choice(["&", "|", ","])))
+    elif k == 5:
+        j = rng.randrange(len(tk))
+        tk[i], tk[j] = tk[j], tk[i]
+    else:
+        ps = [n for n, t in enumerate(tk) if t["t"] in "()"]
+        if ps:
+            del tk[rng.choice(ps)]
+        else:
+            tk.insert(rng.randrange(len(tk) + 1), tok(rng.choice("()")))
+    return tk
 
 
 JCHARS = [c for c in string.printable if c not in "\\\t\n\r\x0b\x0c"]
@@ -279,6 +315,7 @@ class Stage(object):
         self.tval = dict(peg=0.0, tag=0.0, json=0.0)
         self.by_kind = {}             # top kind of a term -> [successes, failures] observed
         self.keep = {}                # kind -> a one-event trace for the self-test
+        self.tag_outcomes = [0, 0]    # tag texts rejected / accepted by the real parser
 
     def _note(self, k, nontrivial):
         h = lib.hashlib.sha1(k.encode()).digest()
@@ -327,9 +364,16 @@ class Stage(object):
                 elif kind == "tag":
                     if ev["ev"] != "tag":
                         continue
-                    self._note("t" + key(ev["toks"]), len(ev["toks"]) > 1)
-                    exp = expect.get(("tag", key(ev["toks"])))
-                    same = exp is not None and ev["ok"] and exp == ev["vals"]
+                    self._note("t" + ev["text"], len(ev["toks"]) > 1)
+                    self.tag_outcomes[1 if ev["ok"] else 0] += 1
+                    if ev.get("bad"):
+                        exp = expect.get(("tagbad", key(ev["toks"])))
+                        same = exp is not None and (
+                            ((not exp["known"]) or (ev["ok"] and exp["vals"] == ev["vals"])) if exp["ok"]
+                            else (exp["why"] == "unspecified" or not ev["ok"]))
+                    else:
+                        exp = expect.get(("tag", key(ev["toks"])))
+                        same = exp is not None and ev["ok"] and exp == ev["vals"]
                 else:
                     self._note("j" + key(ev["v"]), ev["v"]["ts"])
                     exp = expect.get(("json", key(ev["v"])))
@@ -347,8 +391,8 @@ class Stage(object):
                 rep = dict(job=dict(id="replay/0", kind="peg", ws=[t["ws"][j]], terms=[dict(t=ev["t"], how=ev["how"])]))
             elif kind == "tag":
                 what = "taglang.parse(%r): accepted=%s, results on %s = %s" % (ev["text"], ev["ok"], t["sets"], ev["vals"])
-                rep = dict(job=dict(id="replay/0", kind="tag", sets=t["sets"], exprs=[dict(toks=ev["toks"], sp=[0])],
-                                    retab=[]), text=ev["text"])
+                rep = dict(job=dict(id="replay/0", kind="tag", sets=t["sets"], exprs=[dict(text=ev["text"])], retab=[]),
+                           text=ev["text"])
             else:
                 what = "json_parser.loads(%r) -> %s, json.loads -> %s" % (ev["text"], ev["got"], ev["std"])
                 rep = dict(job=dict(id="replay/0", kind="json", values=[dict(v=ev["v"], mode=ev["mode"])]))
@@ -357,7 +401,8 @@ class Stage(object):
         if kind not in self.keep and traces and traces[0]["events"]:
             t = traces[0]
             self.keep[kind] = dict((k, v) for k, v in t.items() if k != "events")
-            self.keep[kind]["events"] = [e for e in t["events"] if e["ev"] != "retab"][:1]
+            self.keep[kind]["events"] = [e for e in t["events"] if e["ev"] != "retab" and
+                                         (kind != "tag" or (e["ok"] and not e.get("bad")))][:1]
         # one written-out case per kind for the evidence file
         if kind not in self.samples and traces and traces[0]["events"]:
             t, ev = traces[0], traces[0]["events"][-1]
@@ -423,7 +468,7 @@ def run(prop, tier):
 
     st = Stage()
     counts = dict(peg_terms=0, peg_pairs=0, tag_exprs=0, json_docs=0)
-    npeg = ntag_model = njson_model = 0
+    npeg = ntag_model = njson_model = nbad_model = 0
     all_hows = ["classes", "operators", "forward"]
 
     # -- combinators: emitted terms (groups of at most ~6e5 term x input pairs are driven and validated together)
@@ -494,14 +539,24 @@ def run(prop, tier):
         for x in chosen:
             items.append(dict(toks=x["toks"], sp=[rng.randint(0, 4) if rng.random() < 0.5 else 0 for _ in range(5)]))
             expect[("tag", key(x["toks"]))] = x["vals"]
+        # the neighbours TLC judged (mostly ill-formed): written without optional white space, exactly as judged
+        bad = [b for x in exprs for b in x.get("bad", []) if b["toks"]]
+        nbad_model += len(bad)
+        for b in (bad if not quick else pick(rng, bad, 2500)):
+            items.append(dict(toks=b["toks"], sp=[], bad=True))
+            expect[("tagbad", key(b["toks"]))] = b
         jobs += [dict(id="%s/%d" % (c["name"], i), kind="tag", sets=sets, exprs=ch, retab=retab)
                  for i, ch in enumerate(lib.chunks(items, max(1, len(items) // 800))) if ch]
         counts["tag_exprs"] += len(items)
     sets = [[], ["a"], ["b"], ["ab"], ["a", "b"], ["a", "ab"], ["b", "ab"], ["a", "b", "ab"]]
     nrt = 3000 if quick else 40000
     for i in range(max(1, nrt // 1000)):
-        items = [dict(toks=render(rand_ast(rng, rng.choice([3, 4, 5]))), sp=[rng.randint(0, 4) for _ in range(7)])
-                 for _ in range(1000)]
+        items = []
+        for _ in range(1000):
+            tk = render(rand_ast(rng, rng.choice([2, 3, 4, 5])))
+            if rng.random() < 0.35:
+                tk = mutate_toks(rng, tk)
+            items.append(dict(toks=tk, sp=[rng.randint(0, 4) for _ in range(7)] if rng.random() < 0.6 else []))
         jobs.append(dict(id="randtag/%d" % i, kind="tag", sets=sets, exprs=items, retab=retab))
         counts["tag_exprs"] += len(items)
     st.run(jobs, expect, rng)
@@ -547,6 +602,8 @@ def run(prop, tier):
         oc = st.by_kind.get(k, [0, 0])
         if not vacuous and (oc[0] == 0 or (oc[1] == 0 and k not in ("until", "opt"))):
             vacuous = "terms with top kind %s: %d successes, %d failures observed" % (k, oc[0], oc[1])
+    if not vacuous and (st.tag_outcomes[0] < 200 or st.tag_outcomes[1] < 200):
+        vacuous = "tag texts: %d rejected and %d accepted by the parser" % tuple(st.tag_outcomes)
     if vacuous and not st.rej:
         raise lib.MachineryError(vacuous)      # with rejections it is a verdict, not vacuity
 
@@ -590,7 +647,9 @@ def run(prop, tier):
              "container documents that were run",
         samples=[st.samples[k] for k in ("peg", "tag", "json") if k in st.samples], assumptions=ASSUMPTIONS,
         extra=dict(configs=[dict((k, v) for k, v in c.items()) for c in cfgs], case_counts=counts,
-                   model_cases=dict(peg_terms=npeg, tag_expressions=ntag_model, json_values=njson_model),
+                   model_cases=dict(peg_terms=npeg, tag_expressions=ntag_model, tag_neighbours_judged=nbad_model,
+                                    json_values=njson_model),
+                   tag_texts_accepted_by_parser=st.tag_outcomes[1], tag_texts_rejected_by_parser=st.tag_outcomes[0],
                    laws_checked_on_model=["SequenceLeftToRight", "ChoiceCommits", "FailedAlternativeInvisible",
                                           "LookaheadConsumesNothing", "LookaheadDecides", "ManyGreedy", "OptNeverFails",
                                           "KeepSides", "UntilStops", "ConsumesSound", "RenderReadable", "RenderFaithful",
